@@ -18,12 +18,22 @@ class P(vlib.Prop):
                      "^TestVerifC11$", "status"),
         vlib.Harness("shared", "internal/sharedcomponent", ".", {"zz_verif_c11_test.go": "C11/shared_test.go"},
                      "^TestVerifC11Shared$", "sharedcomponent"),
+        vlib.Harness("sharedconc", "internal/sharedcomponent", ".", {"zz_verif_c11_test.go": "C11/shared_test.go"},
+                     "^TestVerifC11SharedConc$", "sharedcomponent"),
+        vlib.Harness("graph", "service", "./internal/graph/", {"zz_verif_c11_test.go": "C11/graph_test.go"},
+                     "^TestVerifC11Graph$", "graph"),
+        vlib.Harness("extensions", "service", "./extensions/", {"zz_verif_c11_test.go": "C11/ext_test.go"},
+                     "^TestVerifC11Ext$", "extensions"),
     ]
     rule = ("status: EVERY report sequence of length <= 4 (quick) / 5 (thorough) over the 9-letter alphabet "
             "(8 statuses + ReportOKIfStarting), 48 sequences per case on distinct instances, randomly interleaved; "
             "plus random scripts of 5-60 reports over 1-4 instances (60% legal moves) and concurrent runs "
             "(8 goroutines x 4 instances, linearisation read from the callbacks under the reporter mutex). "
-            "shared: Start/report/late-Start/Shutdown scripts on the real sharedcomponent.Component. "
+            "shared: Start/report/late-Start/Shutdown scripts on the real sharedcomponent.Component; sharedconc: a report "
+            "issued from another goroutine while a late instance is inside its replay (forced interleaving). "
+            "graph / extensions: the REAL Graph.StartAll/ShutdownAll and Extensions.Start/Shutdown over 1-4 scripted "
+            "components that report during Start, at run time and during Shutdown and may fail (lifecycle scripts, "
+            "the automatic-OK clause checked directly). "
             "A case is non-trivial when at least one event is delivered (status) / a second instance attaches (shared); "
             "distinct = distinct case terms.")
     trusted_base = [
@@ -31,12 +41,13 @@ class P(vlib.Prop):
         "translator T1 (tools/go2coq): reads the newFSM map literal and the Status constants from the current source",
         "hand-written diagram C11/Diagram.v transcribed from docs/component-status.md (the specification)",
         "Go harnesses harness/C11/*.go + go test -overlay; Go toolchain",
-        "modelled by hand, tied by correspondence: fsm.transition, reporter.ReportStatus/ReportOKIfStarting, hostWrapper.Report/addSource",
+        "modelled by hand, tied by correspondence: fsm.transition, reporter.ReportStatus/ReportOKIfStarting, hostWrapper.Report/addSource, "
+        "the status reports of graph.StartAll/ShutdownAll and Extensions.Start/Shutdown around component Start/Shutdown",
     ]
     assumptions = [
         "each report is atomic (reporter.mu held across lookup, transition and callback)",
         "sync.Mutex, sync.Once and container/ring behave as documented",
-        "the automatic reports issued by graph.StartAll/ShutdownAll and Extensions.Start/Shutdown are ordinary reports (covered by the universally quantified report sequence)",
+        "hostWrapper.addSource (replay + registration) is atomic with respect to hostWrapper.Report (both under hostWrapper.lock); validated by the forced interleaving of harness sharedconc",
     ]
 
     def translate(self, ctx):
